@@ -356,7 +356,28 @@ def r5_split_merge(ctx):
     r2_fold(ctx, 'R5.split-merge')
 
 
-RULES = [('R5.split-merge', r5_split_merge), ('R1.ownership', r1_ownership), ('R2.base', r2_base), ('R3.step', r3_step), ('R4.reported', r4_reported)]
+def r6_published(ctx):
+    """the figures published after adding transmitter / add-drop noise keep the identity: snr and osnr_ase receive the
+    same added-noise term computed from the RAW figures (shared with C13-R2), so 1/GSNR - 1/OSNR_ASE = 1/SNR_NLI still holds"""
+    from .c13 import r2_update_snr
+
+    class P:
+        def __init__(self, c):
+            self.c = c
+
+        def __getattr__(self, n):
+            return getattr(self.c, n)
+
+        def check(self, rule, *a, **k):
+            return self.c.check('R6.published-figures', *a, **k)
+
+        def need(self, rule, *a, **k):
+            return None
+    r2_update_snr(P(ctx))
+    ctx.need('R6.published-figures', 8)
+
+
+RULES = [('R6.published-figures', r6_published), ('R5.split-merge', r5_split_merge), ('R1.ownership', r1_ownership), ('R2.base', r2_base), ('R3.step', r3_step), ('R4.reported', r4_reported)]
 
 
 def proof_keys(ctx):
